@@ -81,3 +81,125 @@ pub fn binom(n: u64, k: u64) -> f64 {
     }
     r
 }
+
+// ---------------------------------------------------------------- job runner
+
+use rayon::prelude::*;
+use serde_json::json;
+
+use crate::{derive_seed, fnv, Ctx, Fail};
+
+/// A named statistic with the root-cause signature used if it is flagged.
+#[derive(Clone, Debug)]
+pub struct Stat {
+    pub signature: String,
+    pub count: Count,
+}
+
+impl Stat {
+    pub fn new(signature: impl Into<String>, name: impl Into<String>, k: u64, n: u64, p: f64) -> Self {
+        Self {
+            signature: signature.into(),
+            count: Count {
+                name: name.into(),
+                k,
+                n,
+                p,
+            },
+        }
+    }
+}
+
+/// One configuration: `run(trials, seed)` performs `trials` independent seeded
+/// trials and returns its statistics (or a hard failure such as a panic).
+pub struct Job {
+    pub name: String,
+    pub run: Box<dyn Fn(u64, u64) -> Result<Vec<Stat>, Fail> + Send + Sync>,
+}
+
+/// Runs all jobs in parallel.  A flagged statistic is re-sampled once with 8x
+/// the trials from an independent seed and reported only if it flags again.
+pub fn run_jobs(ctx: &mut Ctx, sub: &str, jobs: Vec<Job>, trials: u64) {
+    let seed = ctx.seed;
+    let property = ctx.property.clone();
+    let t0 = std::time::Instant::now();
+    let results: Vec<(String, Result<(Vec<Stat>, Vec<(Stat, Stat)>), Fail>)> = jobs
+        .par_iter()
+        .map(|job| {
+            let s1 = derive_seed(seed, &property, &job.name, 1);
+            let r = (job.run)(trials, s1).and_then(|stats| {
+                let flagged: Vec<&Stat> = stats.iter().filter(|s| s.count.flagged()).collect();
+                let mut confirmed = vec![];
+                if !flagged.is_empty() {
+                    let s2 = derive_seed(seed, &property, &job.name, 2);
+                    let again = (job.run)(trials * 8, s2)?;
+                    for f in flagged {
+                        if let Some(a) = again.iter().find(|a| a.count.name == f.count.name) {
+                            if a.count.flagged() {
+                                confirmed.push((f.clone(), a.clone()));
+                            }
+                        }
+                    }
+                }
+                Ok((stats, confirmed))
+            });
+            (job.name.clone(), r)
+        })
+        .collect();
+    let mut table = vec![];
+    let mut max_abs_z: f64 = 0.0;
+    let mut n_counts = 0u64;
+    for (job, r) in results {
+        match r {
+            Err(f) => ctx.violation(sub, &f, json!({"job": job})),
+            Ok((stats, confirmed)) => {
+                ctx.count(sub, trials);
+                for s in &stats {
+                    n_counts += 1;
+                    if s.count.p > 0.0 && s.count.p < 1.0 {
+                        ctx.note_nontrivial(fnv(&format!("{sub}/{job}/{}", s.count.name)));
+                        max_abs_z = max_abs_z.max(s.count.z().abs());
+                    }
+                    {
+                        table.push(json!({"job": job, "stat": s.count.name, "k": s.count.k, "n": s.count.n, "p": s.count.p, "z": (s.count.z() * 100.0).round() / 100.0}));
+                    }
+                }
+                if ctx_samples_wanted(ctx, sub) {
+                    if let Some(s) = stats.first() {
+                        ctx.add_sample(json!({"sub": sub, "job": job, "first_statistic": {"name": s.count.name, "k": s.count.k, "n": s.count.n, "p": s.count.p}}));
+                    }
+                }
+                for (first, again) in confirmed {
+                    let f = Fail::new(
+                        first.signature.clone(),
+                        format!(
+                            "{job}: {}: observed {} of {} (frequency {:.5}) where the law prescribes {:.5}; re-sampled with an independent seed: {} of {} (frequency {:.5}). Flag rule: N*KL(k/N || p) > ln(2/1e-12), both stages.",
+                            first.count.name,
+                            first.count.k,
+                            first.count.n,
+                            first.count.k as f64 / first.count.n as f64,
+                            first.count.p,
+                            again.count.k,
+                            again.count.n,
+                            again.count.k as f64 / again.count.n as f64
+                        ),
+                    );
+                    ctx.violation(sub, &f, json!({"job": job, "stat": first.count.name, "trials": trials}));
+                }
+            }
+        }
+    }
+    // keep the 150 most deviating statistics and an evenly spaced sample of the rest
+    table.sort_by(|a, b| b["z"].as_f64().unwrap_or(0.0).abs().total_cmp(&a["z"].as_f64().unwrap_or(0.0).abs()));
+    let stride = (table.len() / 150).max(1);
+    let table: Vec<_> = table.iter().enumerate().filter(|(i, _)| *i < 150 || i % stride == 0).map(|(_, v)| v.clone()).collect();
+    ctx.extra.insert(format!("{sub}_statistics"), json!(table));
+    ctx.extra.insert(
+        format!("{sub}_summary"),
+        json!({"counts": n_counts, "trials_per_job": trials, "max_abs_z_among_0<p<1": (max_abs_z * 100.0).round() / 100.0, "alpha_per_count": ALPHA, "resolution_at_p_0.5": resolution(trials, 0.5, ALPHA), "wall_s": t0.elapsed().as_secs_f64()}),
+    );
+}
+
+fn ctx_samples_wanted(_ctx: &Ctx, _sub: &str) -> bool {
+    true
+}
